@@ -202,3 +202,70 @@ def joint_atoms_in_box(lo, hi, dimension, rng, n_atoms, wmax=5):
     rng.shuffle(cells)
     chosen = cells[:min(n_atoms, len(cells))]
     return [(tuple(c), rng.randint(1, wmax)) for c in chosen]
+
+
+class StepMeasure(LevyMeasure):
+    """A Levy measure with a step density: cells (lo, hi, h) with integer end points and heights (none straddles zero).
+    Mass, first and second moment are exact fractions; integrate_against_xn is NOT overridden: the dispatch and the
+    quadrature fall-back of the base class are the code under test (C09)."""
+
+    def __init__(self, cells):
+        from fractions import Fraction
+        self._F = Fraction
+        self.cells = [(int(lo), int(hi), int(h)) for lo, hi, h in cells]
+
+    def __call__(self, x):
+        for lo, hi, h in self.cells:
+            if lo < x < hi:
+                return h
+        return 0
+
+    def jump_of_finite_activity(self):
+        return True
+
+    def jump_of_finite_variation(self):
+        return True
+
+    def finite_first_moment(self):
+        return True
+
+    def blumenthal_getoor_index(self):
+        return 0.0
+
+    def moment(self, a, b, n):
+        F = self._F
+        if a > b:
+            raise ValueError("Expected a<b when integrating the levy measure")
+        tot = F(0)
+        for lo, hi, h in self.cells:
+            lo_c = lo if a < lo else a
+            hi_c = hi if b > hi else b
+            if lo_c < hi_c:
+                tot += F(h) * (F(hi_c) ** (n + 1) - F(lo_c) ** (n + 1)) / (n + 1)
+        return tot
+
+    def integrate(self, a, b):
+        return self.moment(a, b, 0)
+
+    def integrate_against_x(self, a, b):
+        return self.moment(a, b, 1)
+
+    def integrate_against_xx(self, a, b):
+        return self.moment(a, b, 2)
+
+
+class StepLevyModel(LevyModel):
+    """The REAL LevyModel (truncate_levy_measure nests the REAL TruncatedLevyMeasure) over a step density."""
+
+    def __init__(self, cells):
+        super().__init__(ModelType.HEM, LevyTriplet(a=0.0, sigma=0.0, nu=StepMeasure(cells),
+                                                    representation=LevyRepresentation.ONEONE), _NoCumulant())
+
+    def __repr__(self):
+        return "StepLevyModel"
+
+    def levy_exponent_pure_jump(self, x):
+        raise NotImplementedError
+
+    def intensity(self):
+        return self.levy_triplet.nu.integrate(-np.inf, np.inf)
